@@ -237,23 +237,14 @@ theorem C06_calls (evs : List Event) (now : Ms) (recs : List Rec) :
           | none => rfl
           | some e => exact ⟨_, rfl, refreshed_markOne_refresh now recs e⟩
 
-/-- **C06 (who is called).**  Listeners are notified on a copy of the listener set: in each of the two rounds
-every listener registered at the start of that round is called exactly once, whatever the callbacks do to the
-set (adding or removing listeners, themselves included); a listener added during the first round is called in
-the second round only, one removed during the first round in the first round only. -/
-theorem C06_listeners (ls : List Nat) (hnodup : ls.Nodup) (react1 react2 : Nat → List ListenerAct) :
-    let r := notifyDatagram ls react1 react2
-    r.1 = ls ∧ (∀ l, r.1.count l = if l ∈ ls then 1 else 0)
-    ∧ r.2.1 = (notifyRound ls react1).2 := by
-  refine ⟨rfl, fun l => ?_, rfl⟩
-  show ls.count l = _
-  exact List.Nodup.count hnodup
+/-! ### who is called -/
 
 /-- the live listener set stays a set under callbacks -/
-theorem applyAct_nodup (ls : List Nat) (h : ls.Nodup) (a : ListenerAct) : (applyAct ls a).Nodup := by
+theorem applyAct_nodup (ls : List Nat) (h : ls.Nodup) (a : ListenerAct) (ls' : List Nat) (ha : applyAct ls a = .ok ls') : ls'.Nodup := by
   cases a with
   | add l =>
-    simp only [applyAct]
+    simp only [applyAct, Except.ok.injEq] at ha
+    subst ha
     split
     · exact h
     · rename_i hc
@@ -263,32 +254,158 @@ theorem applyAct_nodup (ls : List Nat) (h : ls.Nodup) (a : ListenerAct) : (apply
       simp only [List.mem_singleton] at hb; subst hb
       intro heq; subst heq
       exact hc (by simpa using ha)
-  | remove l => exact List.Nodup.sublist List.filter_sublist h
+  | remove l =>
+    simp only [applyAct] at ha
+    split at ha
+    · cases ha; exact List.Nodup.sublist List.filter_sublist h
+    · cases ha
 
-theorem notifyRound_nodup (ls : List Nat) (h : ls.Nodup) (react : Nat → List ListenerAct) : (notifyRound ls react).2.Nodup := by
-  unfold notifyRound
-  simp only []
-  have gen : ∀ (todo live : List Nat), live.Nodup → (todo.foldl (fun live l => (react l).foldl applyAct live) live).Nodup := by
-    intro todo
-    induction todo with
-    | nil => intro live hl; exact hl
-    | cons l t ih =>
-      intro live hl
+theorem runActs_nodup (live : List Nat) (h : live.Nodup) (acts : List ListenerAct) : (runActs live acts).1.Nodup := by
+  unfold runActs
+  have gen : ∀ (st : List Nat × Option PyExc), st.1.Nodup →
+      (acts.foldl (fun st a => match st.2 with
+        | some _ => st
+        | none => match applyAct st.1 a with
+          | .ok l => (l, none)
+          | .error e => (st.1, some e)) st).1.Nodup := by
+    induction acts with
+    | nil => intro st hs; exact hs
+    | cons a t ih =>
+      intro st hs
       simp only [List.foldl_cons]
       apply ih
-      have g2 : ∀ (acts : List ListenerAct) (live : List Nat), live.Nodup → (acts.foldl applyAct live).Nodup := by
-        intro acts
-        induction acts with
-        | nil => intro live hl; exact hl
-        | cons a t2 ih2 => intro live hl; exact ih2 _ (applyAct_nodup live hl a)
-      exact g2 _ _ hl
-  exact gen ls ls h
+      cases h2 : st.2 with
+      | some e => simp only []; exact hs
+      | none =>
+        simp only []
+        cases h3 : applyAct st.1 a with
+        | ok l => exact applyAct_nodup st.1 hs a l h3
+        | error e => exact hs
+  exact gen (live, none) h
 
-/-- so in the second round, too, every listener registered at its start is called exactly once -/
-theorem C06_listeners_round2 (ls : List Nat) (hnodup : ls.Nodup) (react1 react2 : Nat → List ListenerAct) (l : Nat) :
-    (notifyDatagram ls react1 react2).2.1.count l = if l ∈ (notifyRound ls react1).2 then 1 else 0 := by
-  show (notifyRound ls react1).2.count l = _
-  exact List.Nodup.count (notifyRound_nodup ls hnodup react1)
+/-- the loop of `async_updates` / `async_updates_complete` from an arbitrary intermediate state -/
+def roundFrom (react : Nat → List ListenerAct) (todo : List Nat) (st : Round) : Round :=
+  todo.foldl (fun st l =>
+    match st.err with
+    | some _ => st
+    | none =>
+      let r := runActs st.live (react l)
+      { called := st.called ++ [l], live := r.1, err := r.2 }) st
+
+theorem roundFrom_err (react : Nat → List ListenerAct) (todo : List Nat) (st : Round) (e : PyExc) (h : st.err = some e) :
+    roundFrom react todo st = st := by
+  induction todo with
+  | nil => rfl
+  | cons l t ih =>
+    unfold roundFrom at ih ⊢
+    simp only [List.foldl_cons, h]
+    exact ih
+
+theorem roundFrom_spec (react : Nat → List ListenerAct) (todo : List Nat) (st : Round) (hn : st.live.Nodup) :
+    ∃ k, (roundFrom react todo st).called = st.called ++ k ∧ k <+: todo
+      ∧ ((roundFrom react todo st).err = none → st.err = none ∧ k = todo)
+      ∧ (roundFrom react todo st).live.Nodup := by
+  induction todo generalizing st with
+  | nil => exact ⟨[], by simp [roundFrom], List.prefix_refl _, fun h => ⟨h, rfl⟩, hn⟩
+  | cons l t ih =>
+    cases he : st.err with
+    | some e =>
+      rw [roundFrom_err react (l :: t) st e he]
+      exact ⟨[], by simp, List.nil_prefix, (fun h => by rw [he] at h; cases h), hn⟩
+    | none =>
+      have hstep : roundFrom react (l :: t) st
+          = roundFrom react t { called := st.called ++ [l], live := (runActs st.live (react l)).1, err := (runActs st.live (react l)).2 } := by
+        unfold roundFrom
+        simp only [List.foldl_cons, he]
+      rw [hstep]
+      obtain ⟨k, h1, h2, h3, h4⟩ := ih { called := st.called ++ [l], live := (runActs st.live (react l)).1, err := (runActs st.live (react l)).2 }
+        (runActs_nodup st.live hn (react l))
+      refine ⟨l :: k, by rw [h1]; simp, ?_, fun h => ⟨rfl, by rw [(h3 h).2]⟩, h4⟩
+      exact List.prefix_cons_inj l |>.2 h2
+
+/-- **C06 (who is called), full statement**: in a notification round every listener registered at its start (the
+snapshot) is called exactly once, whatever the callbacks do to the listener set -/
+def C06_listeners_statement : Prop :=
+  ∀ (ls : List Nat), ls.Nodup → ∀ react : Nat → List ListenerAct, ∀ l, (notifyRound ls react).called.count l = if l ∈ ls then 1 else 0
+
+/-- **D18.**  The full statement is false for the code as it is: `async_remove_listener` lets the `KeyError` of
+`set.remove` escape.  Listener 1 removes listener 2; listener 2 — still called, the set was copied — removes itself, as a
+browser's `_async_cancel` or a lookup's `finally` would: the round ends there and listener 3 is never called. -/
+theorem C06_listeners_refuted : ¬ C06_listeners_statement := by
+  intro h
+  have := h [1, 2, 3] (by decide) (fun l => if l = 1 then [.remove 2] else if l = 2 then [.remove 2] else []) 3
+  revert this
+  decide
+
+/-- … and the datagram is lost: the new record of a datagram during which this happens is never cached, no
+`async_update_records_complete` is delivered, and the exception propagates out of `async_updates_from_response` -/
+theorem C06_remove_absent_aborts_ingestion :
+    ∃ d, deliver id id {} [1, 2, 3] 1000 [⟨"a.local.", 1, 1, false, 120, 0, .addr [10, 0, 0, 1] none⟩]
+        (fun l => if l = 1 then [.remove 2] else if l = 2 then [.remove 2] else []) (fun _ => []) = .ok d
+      ∧ d.err = some .keyError ∧ d.round1 = [1, 2] ∧ d.round2 = []
+      ∧ d.cache.getUnique id ⟨"a.local.", 1, 1, false, 120, 0, .addr [10, 0, 0, 1] none⟩ = none :=
+  ⟨_, rfl, by decide, by decide, by decide, by decide⟩
+
+/-- **C06 (who is called; partial: the extra hypothesis is exactly "no callback removes an unregistered listener",
+i.e. the round does not raise).**  The listeners called are always an initial segment of the snapshot taken at the start
+of the round, each at most once, whatever the callbacks add or remove (a listener added during the round is not called in
+it, a listener removed during the round still is); if the round does not raise, it is the whole snapshot, each listener
+exactly once; and the live set stays duplicate-free. -/
+theorem C06_listeners_partial (ls : List Nat) (hnodup : ls.Nodup) (react : Nat → List ListenerAct) :
+    (notifyRound ls react).called <+: ls
+    ∧ (∀ l, (notifyRound ls react).called.count l ≤ 1)
+    ∧ ((notifyRound ls react).err = none →
+        (notifyRound ls react).called = ls ∧ ∀ l, (notifyRound ls react).called.count l = if l ∈ ls then 1 else 0)
+    ∧ (notifyRound ls react).live.Nodup := by
+  obtain ⟨k, h1, h2, h3, h4⟩ := roundFrom_spec react ls { called := [], live := ls, err := none } hnodup
+  have hcalled : (notifyRound ls react).called = k := by
+    show (roundFrom react ls { called := [], live := ls, err := none }).called = k
+    rw [h1]; simp
+  have hknodup : k.Nodup := List.Nodup.sublist h2.sublist hnodup
+  refine ⟨hcalled ▸ h2, fun l => ?_, fun herr => ?_, h4⟩
+  · rw [hcalled]; exact List.nodup_iff_count.1 hknodup l
+  · have hk := (h3 herr).2
+    rw [hcalled, hk]
+    exact ⟨rfl, fun l => List.Nodup.count hnodup⟩
+
+/-- the second round runs on the set as the first round left it; a datagram whose first round raises has no second round
+and its cache adds and removes never happen -/
+theorem C06_deliver_rounds (order : List Nat → List Nat) (c : Cache) (ls : List Nat) (now : Ms) (recs : List Rec)
+    (react1 react2 : Nat → List ListenerAct) (d : Delivery) (hd : deliver lower order c ls now recs react1 react2 = .ok d) :
+    match d.out.call1 with
+    | none => d.round1 = [] ∧ d.round2 = [] ∧ d.err = none ∧ d.cache = d.out.cache
+    | some call =>
+      d.round1 = (notifyRound (order ls) react1).called
+      ∧ (match (notifyRound (order ls) react1).err with
+         | some e => d.err = some e ∧ d.round2 = [] ∧ d.cache = call.2
+         | none => d.round2 = (notifyRound (order (notifyRound (order ls) react1).live) react2).called
+                   ∧ d.err = (notifyRound (order (notifyRound (order ls) react1).live) react2).err ∧ d.cache = d.out.cache) := by
+  unfold deliver at hd
+  cases hi : ingest lower (Cache.ops lower) c now recs with
+  | error e => rw [hi] at hd; cases hd
+  | ok out =>
+    rw [hi] at hd
+    simp only [bind, Except.bind] at hd
+    cases hc : out.call1 with
+    | none =>
+      rw [hc] at hd
+      simp only [pure, Except.pure, Except.ok.injEq] at hd
+      subst hd
+      simp [hc]
+    | some call =>
+      rw [hc] at hd
+      simp only [] at hd
+      cases he : (notifyRound (order ls) react1).err with
+      | some e =>
+        rw [he] at hd
+        simp only [pure, Except.pure, Except.ok.injEq] at hd
+        subst hd
+        simp [hc, he]
+      | none =>
+        rw [he] at hd
+        simp only [pure, Except.pure, Except.ok.injEq] at hd
+        subst hd
+        simp [hc, he]
 
 /-! non-vacuity -/
 
